@@ -250,6 +250,8 @@ def run(ctx):
         syn_counts[str(L)] = r.distinct
     ctx.notes["syndrome_states_by_data_length"] = syn_counts
     events = core.build_events(ctx, gen_inputs(ctx))
+    events += core.suite_events(ctx, ["tests/test_bech32.py", "tests/test_helper.py", "tests/test_base_wallet.py"],
+                                ("SegwitEnc", "SegwitDec"), len(events), limit=200 if ctx.quick else 2000)
     for e in events[:1] + events[3000:3002] + events[-1:]:
         ctx.sample({"act": e["act"], "call": describe(e), "res": e["res"]})
     rj = ctx.validate(MODULE, events)
